@@ -151,7 +151,7 @@ def sample_records(
 
     if repeats is None:
         test_pos = rng.choice(np.int32(n), size, replace=False)
-        return _make_pair(data, df, test_pos)
+        return _make_pair(data, df, test_pos, test_only=test_only)
 
     if disjoint and repeats * size >= n:
         _log.warning(
@@ -160,7 +160,7 @@ def sample_records(
             size,
             n,
         )
-        return crossfold_records(data, repeats, rng=rng)
+        return crossfold_records(data, repeats, test_only=test_only, rng=rng)
 
     # get iterators over index arrays for producing the data
     if disjoint:
